@@ -15,6 +15,7 @@ DECIDED = ("R1 in alphabeta the mate score is built only under `no legal move` a
 DECIDED = DECIDED + ' R6 premise re-run here: the staged iteration the search relies on (captures first, then set_mask and the rest) loses no move (C10.R3, R7, R9). R7 the score search_with reports originates only from alphabeta results or P::WORST_SCORE (reaching definitions, field-sensitive): a shortcut returning a static evaluation would report Raw(..) for a mating move.'
 DECIDED = DECIDED + ' R8 in search_with (three root loops) and in alphabeta the running best score is replaced by a child score exactly under P::is_better(best, child) - as an assignment, or inside a private helper evaluated on its own paths - and is written nowhere else (a fold that never stores the better score makes every inner node return the policy worst score and lets any later root move displace the mate).'
 DECIDED = DECIDED + ' R1/R2 also: the mate score may be built by a method of the Policy trait implemented per colour (each implementation checked against the colour constant of its impl). R4/R5/R7/R8 treat a private function whose every path returns alphabeta(self, its move, its args) - plain, or as Some(score) / None exactly when the time limit expired - as an alphabeta call.'
+DECIDED = DECIDED + ' R90 premises re-run here: C03 C03.R4, C03.R5, C03.R6.'
 NOT_DECIDED = "that the move carrying the mate score checkmates on the actual board (needs C01 move generation and C03 check status as behaviours)"
 EXPLANATION = ("K2 guard extraction (control dependence chains described by the defining call of each branch value) over the MIR of the generic search functions; "
                "K4 table for the dead-position predicate; who-may-construct over the whole workspace.")
@@ -534,6 +535,14 @@ def r_premise(ctx):
     from analysis.runner import premise
     premise(ctx, "C10", {'C10.R9', 'C10.R7', 'C10.R3'}, "the search iterates captures first and then re-masks the same generator; that iteration no longer yields every legal move exactly once")
 
+
+
+@rule("C12.R90", 'premises shared with other properties: C03 (C03.R4, C03.R5, C03.R6)')
+def r_premises_shared(ctx):
+    """This property's argument rests on these rules of other properties (what it calls is assumed to behave); they are re-run here so that a
+    breakage of one of them is reported by this property's own check as well."""
+    from analysis.runner import premise
+    premise(ctx, 'C03', ['C03.R4', 'C03.R5', 'C03.R6'] and set(['C03.R4', 'C03.R5', 'C03.R6']), 'mate detection is `no legal move and in check`; the cached check information is no longer exact')
 
 
 # ------------------------------------------------------------------ controls
